@@ -242,7 +242,7 @@ spec fn j4(st: State) -> bool { forall|x: KeyCode, j: int| #![trigger st.pass_th
 /// no pass-through key is an output key of an active mapping (with J4: pass-through keys are untouched by every mapping in effect)
 spec fn j6(st: State) -> bool { forall|x: KeyCode| #[trigger] st.pass_through_keys@.contains(x) ==> !out_of(st.active_mappings@, x) }
 
-spec fn rel(evs: Seq<Event>, x: KeyCode) -> bool { evs.contains(Event::Released(x)) }
+pub open spec fn rel(evs: Seq<Event>, x: KeyCode) -> bool { evs.contains(Event::Released(x)) }
 
 proof fn lemma_out_of_sub(a: Seq<Mapping>, b: Seq<Mapping>, x: KeyCode)
   requires am_sub(a, a.len() as int, b), out_of(a, x)
@@ -314,14 +314,18 @@ spec fn ktr_cur(ktr: Seq<KeyCode>, to: Seq<KeyCode>, n: int, mo: Seq<KeyCode>) -
   forall|p: int| to.len() - n <= p < to.len() && 0 <= p ==> (mo.contains(#[trigger] to[p]) ==> ktr.contains(to[p]))
 }
 proof fn lemma_ktr_push(k0: Seq<KeyCode>, x: KeyCode, am: Seq<Mapping>, n: int, mo: Seq<KeyCode>, to: Seq<KeyCode>, n2: int, j: int)
-  requires ktr_sound(k0, am), ktr_complete(k0, am, n, mo), ktr_cur(k0, to, n2, mo), 0 <= j < am.len(), is_ram_src(am[j]), am[j].to@.contains(x)
+  requires
+    //@ C05 C04 | scope of the keys a step lifts
+    ktr_sound(k0, am), ktr_complete(k0, am, n, mo), ktr_cur(k0, to, n2, mo), 0 <= j < am.len(), is_ram_src(am[j]), am[j].to@.contains(x)
   ensures ktr_sound(k0.push(x), am), ktr_complete(k0.push(x), am, n, mo), ktr_cur(k0.push(x), to, n2, mo), k0.push(x).contains(x)
 {
   lemma_push_contains(k0, x);
   assert forall|y: KeyCode| #[trigger] k0.push(x).contains(y) implies ram_target(am, y) by { if y == x { assert(act_map(am[j]) && am[j].to@.contains(x)); } else { assert(k0.contains(y)); } }
 }
 proof fn lemma_ktr_next(ktr: Seq<KeyCode>, am: Seq<Mapping>, n: int, mo: Seq<KeyCode>, done: bool)
-  requires ktr_complete(ktr, am, n, mo), 0 <= n < am.len(), done ==> ktr_cur(ktr, am[n].to@, am[n].to@.len() as int, mo), !done ==> !is_ram_src(am[n])
+  requires
+    //@ C05 C04 | scope of the keys a step lifts
+    ktr_complete(ktr, am, n, mo), 0 <= n < am.len(), done ==> ktr_cur(ktr, am[n].to@, am[n].to@.len() as int, mo), !done ==> !is_ram_src(am[n])
   ensures ktr_complete(ktr, am, n + 1, mo)
 {
   assert forall|j: int, x: KeyCode| #![trigger am[j].to@.contains(x)] 0 <= j < n + 1 && j < am.len() && is_ram_src(am[j]) && am[j].to@.contains(x) && mo.contains(x) implies ktr.contains(x) by {
@@ -557,7 +561,7 @@ fn is_any_modifier(keys: &Vec<KeyCode>) -> (r: bool)
   keys.iter().any(|k| !is_action_key(k))
 }
 
-//@ C01 C02 C07 C09 C14 C19 | default: fn release_action_mappings
+//@ C01 C02 C04 C05 C07 C09 C14 C19 | default: fn release_action_mappings
 fn release_action_mappings(state: &mut State) -> (events: Vec<Event>)
   requires
     //@ C19 | bookkeeping equals the fold of the emitted events; no redundant press or release
@@ -613,11 +617,13 @@ fn release_action_mappings(state: &mut State) -> (events: Vec<Event>)
       ktr_sound(keys_to_release@, am),
       ktr_complete(keys_to_release@, am, it1.index@ as int, mo_seq),
     { //@ | body
+    //@ C05 C04 | scope / completeness of the keys lifted with the outputs of key-producing mappings that carry modifiers
     let ghost n1 = it1.index@ as int;
     proof { assert(*exsting_mapping == am[n1]); }
     let ghost mut scanned = false;
     if is_action_mapping(exsting_mapping) {
       if exsting_mapping.to.len() > 1 && is_any_modifier(&exsting_mapping.to) {
+        //@ C05 C04 | scope / completeness of the keys lifted with the outputs of key-producing mappings that carry modifiers
         proof { scanned = true; assert(is_ram_src(am[n1])); }
         for mod_key in it2: exsting_mapping.to.iter().rev()
           invariant
@@ -643,14 +649,18 @@ fn release_action_mappings(state: &mut State) -> (events: Vec<Event>)
             ktr_complete(keys_to_release@, am, n1, mo_seq),
             ktr_cur(keys_to_release@, am[n1].to@, it2.index@ as int, mo_seq),
           { //@ | body
+          //@ C05 C04 | scope / completeness of the keys lifted with the outputs of key-producing mappings that carry modifiers
           let ghost p2 = am[n1].to@.len() - 1 - it2.index@; let ghost kk0 = keys_to_release@;
           proof { assert(*mod_key == am[n1].to@[p2]); assert(am[n1].to@.contains(*mod_key)); }
           if state.mapped_output_keys.contains(mod_key) && !keys_to_release.contains(mod_key) {
             let ghost k0 = keys_to_release@;
             keys_to_release.push(*mod_key);
-            proof { lemma_push_set(k0, *mod_key); lemma_push_nodup(k0, *mod_key); lemma_ts(old(state).mapped_output_keys@, *mod_key); assert(mo_old.contains(*mod_key));
-              lemma_ktr_push(k0, *mod_key, am, n1, mo_seq, am[n1].to@, it2.index@ as int, n1); }
+            //@  | frame / auxiliary
+            proof { lemma_push_set(k0, *mod_key); lemma_push_nodup(k0, *mod_key); lemma_ts(old(state).mapped_output_keys@, *mod_key); assert(mo_old.contains(*mod_key)); }
+            //@ C05 C04 | scope / completeness of the keys lifted with the outputs of key-producing mappings that carry modifiers
+            proof { lemma_ktr_push(k0, *mod_key, am, n1, mo_seq, am[n1].to@, it2.index@ as int, n1); }
           }
+          //@ C05 C04 | scope / completeness of the keys lifted with the outputs of key-producing mappings that carry modifiers
           proof { assert(ktr_cur(keys_to_release@, am[n1].to@, it2.index@ as int + 1, mo_seq)) by {
             assert forall|p: int| am[n1].to@.len() - (it2.index@ as int + 1) <= p < am[n1].to@.len() && 0 <= p implies (mo_seq.contains(#[trigger] am[n1].to@[p]) ==> keys_to_release@.contains(am[n1].to@[p])) by {
               if p == p2 { } else { assert(mo_seq.contains(am[n1].to@[p]) ==> kk0.contains(am[n1].to@[p])); if kk0.contains(am[n1].to@[p]) && keys_to_release@ != kk0 { lemma_push_contains(kk0, *mod_key); } }
@@ -658,6 +668,7 @@ fn release_action_mappings(state: &mut State) -> (events: Vec<Event>)
         }
       }
     }
+    //@ C05 C04 | scope / completeness of the keys lifted with the outputs of key-producing mappings that carry modifiers
     proof { lemma_ktr_next(keys_to_release@, am, n1, mo_seq, scanned); }
   }
   
@@ -749,6 +760,7 @@ fn release_action_mappings(state: &mut State) -> (events: Vec<Event>)
       let j = choose|j: int| 0 <= j < events@.len() && events@[j] == e;
       assert(events@[j] == Event::Released(keys_to_release@[j]));
     }
+    //@ C05 C04 | scope / completeness of the keys lifted with the outputs of key-producing mappings that carry modifiers
     assert(ram_scope(*old(state), *state)) by { reveal(ram_scope);
       assert forall|x: KeyCode| #![trigger old(state).mapped_output_keys@.contains(x)] old(state).mapped_output_keys@.contains(x) && !state.mapped_output_keys@.contains(x) implies ram_target(am, x) by {
         lemma_ts(old(state).mapped_output_keys@, x); lemma_ts(state.mapped_output_keys@, x); assert(ktr.contains(x)); lemma_ts(keys_to_release@, x); } }
@@ -836,15 +848,21 @@ spec fn rak_idle(st: State, o: State, evs: Seq<Event>) -> bool {
   evs.len() == 0 && st.pass_through_keys@ == o.pass_through_keys@ && st.mapped_output_keys@ == o.mapped_output_keys@ && st.active_mappings@ == o.active_mappings@ && st.input_pressed_keys@ == o.input_pressed_keys@
 }
 proof fn lemma_rak_pt_weaken(st: State, o: State, d0: Seq<KeyCode>, k: KeyCode)
-  requires rak_pt(st, o, d0)
+  requires
+    //@ C05 | scope of the keys a step lifts
+    rak_pt(st, o, d0)
   ensures rak_pt(st, o, d0.push(k))
 { assert forall|x: KeyCode| #![trigger o.pass_through_keys@.contains(x)] o.pass_through_keys@.contains(x) && !d0.push(k).contains(x) implies st.pass_through_keys@.contains(x) by { lemma_push_contains(d0, k); if d0.contains(x) { } } }
 proof fn lemma_rak_pt_sub(st0: State, st: State, o: State, done: Seq<KeyCode>)
-  requires rak_pt(st0, o, done), sub(st0.pass_through_keys@, st.pass_through_keys@)
+  requires
+    //@ C05 | scope of the keys a step lifts
+    rak_pt(st0, o, done), sub(st0.pass_through_keys@, st.pass_through_keys@)
   ensures rak_pt(st, o, done)
 { }
 proof fn lemma_rak_pt_remove(st0: State, st: State, o: State, done: Seq<KeyCode>, i: int)
-  requires rak_pt(st0, o, done), 0 <= i < st0.pass_through_keys@.len(), st.pass_through_keys@ == st0.pass_through_keys@.remove(i), done.contains(st0.pass_through_keys@[i])
+  requires
+    //@ C05 | scope of the keys a step lifts
+    rak_pt(st0, o, done), 0 <= i < st0.pass_through_keys@.len(), st.pass_through_keys@ == st0.pass_through_keys@.remove(i), done.contains(st0.pass_through_keys@[i])
   ensures rak_pt(st, o, done)
 {
   assert forall|x: KeyCode| #![trigger o.pass_through_keys@.contains(x)] o.pass_through_keys@.contains(x) && !done.contains(x) implies st.pass_through_keys@.contains(x) by {
@@ -950,7 +968,9 @@ fn release_absorbed_keys(state: &mut State) -> (events: Vec<Event>)
           let ghost e0 = events@; let ghost hm0 = held(*state);
           let ghost am0 = state.active_mappings@; let ghost st_rm = *state;
           events.append(&mut remove_mapping(state, i as usize, k));
+          //@ C05 | every other passed-through key stays down
           proof { lemma_rak_pt_sub(st_rm, *state, *old(state), done0); }
+          //@  | frame / auxiliary
           proof { let chunk = choose|c: Seq<Event>| events@ == e0 + c && apply(hm0, c) == Some(held(*state)) && all_released(c);
             lemma_apply_append(h0, e0, chunk); lemma_append_contains(e0, chunk); lemma_am_sub_remove(am0, i as int); lemma_am_sub_trans(state.active_mappings@, am0, old(state).active_mappings@);
             assert forall|j: int| i <= j < state.active_mappings@.len() implies !(#[trigger] state.active_mappings@[j].from@).contains(k) by { assert(state.active_mappings@[j] == am0[j + 1]); }
@@ -960,6 +980,7 @@ fn release_absorbed_keys(state: &mut State) -> (events: Vec<Event>)
       }
     }
     
+    //@ C05 | every other passed-through key stays down
     proof { lemma_rak_pt_weaken(*state, *old(state), done0, k); }
     for i in it2: (0 .. state.pass_through_keys.len()).rev()
       invariant_except_break
@@ -993,7 +1014,9 @@ fn release_absorbed_keys(state: &mut State) -> (events: Vec<Event>)
         let ghost pt0 = state.pass_through_keys@; let ghost st_pt = *state;
         events.push(Released(k));
         state.pass_through_keys.remove(i);
+        //@ C05 | every other passed-through key stays down
         proof { lemma_rak_pt_remove(st_pt, *state, *old(state), done1, i as int); }
+        //@  | frame / auxiliary
         proof {
           lemma_push_contains(e0, Released(k));
           assert(events@.drop_last() =~= e0);
@@ -1344,7 +1367,9 @@ spec fn anm_scope(o: State, m: Mapping, x: KeyCode) -> bool {
 spec fn anm_rel(o: State, m: Mapping, evs: Seq<Event>) -> bool { forall|x: KeyCode| #[trigger] rel(evs, x) ==> anm_scope(o, m, x) }
 // a key released by a batch of releases was down before the batch and is up after it
 proof fn lemma_released_gone(h: Set<KeyCode>, evs: Seq<Event>, x: KeyCode)
-  requires all_released(evs), apply(h, evs) is Some, rel(evs, x)
+  requires
+    //@ C05 C04 | scope of the keys a step lifts
+    all_released(evs), apply(h, evs) is Some, rel(evs, x)
   ensures h.contains(x), !apply(h, evs).unwrap().contains(x)
   decreases evs.len()
 {
@@ -1357,9 +1382,14 @@ proof fn lemma_released_gone(h: Set<KeyCode>, evs: Seq<Event>, x: KeyCode)
   if j == evs.len() - 1 { assert(evs.last() == Event::Released(x)); }
   else { assert(init[j] == Event::Released(x)); assert(rel(init, x)); lemma_released_gone(h, init, x); }
 }
-proof fn lemma_anm_rel_empty(o: State, m: Mapping, evs: Seq<Event>) requires evs.len() == 0 ensures anm_rel(o, m, evs) { reveal(anm_rel); }
+proof fn lemma_anm_rel_empty(o: State, m: Mapping, evs: Seq<Event>)
+  requires
+    //@ C05 C04 | scope of the keys a step lifts
+    evs.len() == 0 ensures anm_rel(o, m, evs) { reveal(anm_rel); }
 proof fn lemma_anm_rel_ram(o: State, st: State, m: Mapping, c: Seq<Event>)
-  requires all_released(c), apply(held(o), c) == Some(held(st)), st.pass_through_keys@ == o.pass_through_keys@, ram_scope(o, st), act_map(m)
+  requires
+    //@ C05 C04 | scope of the keys a step lifts
+    all_released(c), apply(held(o), c) == Some(held(st)), st.pass_through_keys@ == o.pass_through_keys@, ram_scope(o, st), act_map(m)
   ensures anm_rel(o, m, c)
 {
   reveal(anm_rel); reveal(ram_scope);
@@ -1369,7 +1399,9 @@ proof fn lemma_anm_rel_ram(o: State, st: State, m: Mapping, c: Seq<Event>)
   }
 }
 proof fn lemma_anm_rel_rak(o: State, sp: State, st: State, m: Mapping, e1: Seq<Event>, c: Seq<Event>)
-  requires anm_rel(o, m, e1), all_released(c), apply(held(sp), c) == Some(held(st)), sp.pass_through_keys@ == o.pass_through_keys@, sub(sp.mapped_output_keys@, o.mapped_output_keys@),
+  requires
+    //@ C05 C04 | scope of the keys a step lifts
+    anm_rel(o, m, e1), all_released(c), apply(held(sp), c) == Some(held(st)), sp.pass_through_keys@ == o.pass_through_keys@, sub(sp.mapped_output_keys@, o.mapped_output_keys@),
     sp.mapped_absorbed_keys@ == o.mapped_absorbed_keys@, rak_pt(st, sp, sp.mapped_absorbed_keys@), sp.mapped_absorbed_keys@.len() == 0 ==> rak_idle(st, sp, c)
   ensures anm_rel(o, m, e1 + c)
 {
@@ -1384,7 +1416,9 @@ proof fn lemma_anm_rel_rak(o: State, sp: State, st: State, m: Mapping, e1: Seq<E
   }
 }
 proof fn lemma_anm_rel_push(o: State, m: Mapping, e0: Seq<Event>, e: Event)
-  requires anm_rel(o, m, e0), match e { Event::Released(x) => anm_scope(o, m, x), _ => true }
+  requires
+    //@ C05 C04 | scope of the keys a step lifts
+    anm_rel(o, m, e0), match e { Event::Released(x) => anm_scope(o, m, x), _ => true }
   ensures anm_rel(o, m, e0.push(e))
 {
   reveal(anm_rel);
@@ -1394,7 +1428,9 @@ proof fn lemma_anm_rel_push(o: State, m: Mapping, e0: Seq<Event>, e: Event)
   }
 }
 proof fn lemma_anm_rel_raak(o: State, m: Mapping, e0: Seq<Event>, c: Seq<Event>, hm0: Set<KeyCode>, h1: Set<KeyCode>)
-  requires anm_rel(o, m, e0), all_released(c), apply(hm0, c) == Some(h1), forall|k: KeyCode| hm0.contains(k) && is_mod(k) ==> h1.contains(k), !(m.repeat is Normal)
+  requires
+    //@ C05 C04 | scope of the keys a step lifts
+    anm_rel(o, m, e0), all_released(c), apply(hm0, c) == Some(h1), forall|k: KeyCode| hm0.contains(k) && is_mod(k) ==> h1.contains(k), !(m.repeat is Normal)
   ensures anm_rel(o, m, e0 + c)
 {
   reveal(anm_rel); lemma_append_contains(e0, c);
@@ -1464,7 +1500,9 @@ fn add_new_mapping(state: &mut State, new_key: &KeyCode, m: &Mapping) -> (res: S
   let ghost nk0 = *new_key;
   proof { assert(all_released(events@)); }
   let ghost h0 = held(*old(state));
+  //@ C05 C04 | scope of the keys lifted so far
   proof { lemma_anm_rel_empty(*old(state), *m, events@); }
+  //@  | frame / auxiliary
   
   proof { assert(jx(*state, m.to@)); assert(nonempty_from(state.active_mappings@)); lemma_am_sub_refl(state.active_mappings@); assert(anm_extra(*old(state), *state, m.absorbing@)); }
   if is_action_mapping(m) {
@@ -1483,7 +1521,9 @@ fn add_new_mapping(state: &mut State, new_key: &KeyCode, m: &Mapping) -> (res: S
     if should_absorb {
       let ghost e1 = events@; let ghost hm1 = held(*state); let ghost am_pre = state.active_mappings@; let ghost s_pre = *state;
       events.append(&mut release_absorbed_keys(state));
+      //@ C05 C04 | scope of the keys lifted so far
       proof { let c2r = choose|c: Seq<Event>| events@ == e1 + c && apply(hm1, c) == Some(held(*state)) && all_released(c); lemma_anm_rel_rak(*old(state), s_pre, *state, *m, e1, c2r); }
+      //@  | frame / auxiliary
       proof { lemma_nonempty_sub(state.active_mappings@, am_pre); lemma_am_sub_trans(state.active_mappings@, am_pre, old(state).active_mappings@); let c2 = choose|c: Seq<Event>| events@ == e1 + c && apply(hm1, c) == Some(held(*state)) && all_released(c); lemma_apply_append(h0, e1, c2); lemma_append_contains(e1, c2); assert(jx(*state, m.to@)); assert((j2(*old(state)) ==> j2(*state)) && (j3(*old(state)) ==> j3(*state)) && (j4(*old(state)) ==> j4(*state)) && (j6(*old(state)) ==> j6(*state)) && sub(state.input_pressed_keys@, old(state).input_pressed_keys@) && (forall|x: KeyCode| #[trigger] old(state).input_pressed_keys@.contains(x) && (!old(state).mapped_absorbed_keys@.contains(x) || old(state).absorbing_trigger == Some(nk0)) ==> state.input_pressed_keys@.contains(x)) && anm_extra(*old(state), *state, m.absorbing@)); }
     }
   }
@@ -1492,7 +1532,9 @@ fn add_new_mapping(state: &mut State, new_key: &KeyCode, m: &Mapping) -> (res: S
   let ghost cleared = has_action(m.to@) && old(state).absorbing_trigger != Some(nk0);
   let ghost gone: Seq<KeyCode> = if cleared { old(state).mapped_absorbed_keys@ } else { Seq::empty() };
   proof { assert(abs_phase(*old(state), *state, nk0, m.to@)); assert(gone_keep(*state, gone)); assert(all_released(events@)); }
+  //@ C05 C04 | scope of the keys lifted so far
   proof { assert(old(state).mapped_absorbed_keys@.len() == 0 ==> pt_s1 == old(state).pass_through_keys@); }
+  //@  | frame / auxiliary
   proof { assert(held(*state) =~= state.pass_through_keys@.to_set().union(state.mapped_output_keys@.to_set())); }
   let pass_through_keys = &mut state.pass_through_keys;
   let mapped_output_keys = &mut state.mapped_output_keys;
@@ -1579,7 +1621,9 @@ fn add_new_mapping(state: &mut State, new_key: &KeyCode, m: &Mapping) -> (res: S
         events.push(Released(*new_key));
         let ghost e1 = events@;
         events.push(Pressed(*new_key));
+        //@ C05 C04 | scope of the keys lifted so far
         proof { lemma_anm_rel_push(*old(state), *m, e0, Event::Released(*new_key)); lemma_anm_rel_push(*old(state), *m, e1, Event::Pressed(*new_key)); }
+        //@  | frame / auxiliary
         proof { assert(e1.drop_last() =~= e0); assert(events@.drop_last() =~= e1); assert(held(*state).remove(*new_key).insert(*new_key) =~= held(*state)); assert(apply(h0, events@) == Some(held(*state))); }
       }
       else {
@@ -1587,7 +1631,9 @@ fn add_new_mapping(state: &mut State, new_key: &KeyCode, m: &Mapping) -> (res: S
           events.push(Released(*new_key));
           let ghost e1 = events@;
           events.push(Pressed(*new_key));
-          proof { lemma_anm_rel_push(*old(state), *m, e0, Event::Released(*new_key)); lemma_anm_rel_push(*old(state), *m, e1, Event::Pressed(*new_key)); }
+          //@ C05 C04 | scope of the keys lifted so far
+        proof { lemma_anm_rel_push(*old(state), *m, e0, Event::Released(*new_key)); lemma_anm_rel_push(*old(state), *m, e1, Event::Pressed(*new_key)); }
+        //@  | frame / auxiliary
           proof { assert(e1.drop_last() =~= e0); assert(events@.drop_last() =~= e1); }
           let mut __i: usize = 0; while __i < state.pass_through_keys.len()
             invariant
@@ -1622,7 +1668,11 @@ fn add_new_mapping(state: &mut State, new_key: &KeyCode, m: &Mapping) -> (res: S
         else {
           events.push(Pressed(*new_key));
           state.mapped_output_keys.push(*new_key);
-          proof { lemma_anm_rel_push(*old(state), *m, e0, Event::Pressed(*new_key)); }
+          //@ C05 C04 | scope of the keys lifted so far
+          //@ C05 C04 | scope of the keys lifted so far
+        proof { lemma_anm_rel_push(*old(state), *m, e0, Event::Pressed(*new_key)); }
+        //@  | frame / auxiliary
+          //@  | frame / auxiliary
           proof { assert(events@.drop_last() =~= e0); lemma_push_set(mo0, *new_key); lemma_push_nodup(mo0, *new_key); lemma_push_contains(mo0, *new_key);
             assert(held(*state) =~= (pt0.to_set().union(mo0.to_set())).insert(*new_key)); assert(apply(h0, events@) == Some(held(*state))); }
         }
@@ -1632,7 +1682,9 @@ fn add_new_mapping(state: &mut State, new_key: &KeyCode, m: &Mapping) -> (res: S
       if !state.mapped_output_keys.contains(new_key) && !state.pass_through_keys.contains(new_key) {
         events.push(Pressed(*new_key));
         state.mapped_output_keys.push(*new_key);
+        //@ C05 C04 | scope of the keys lifted so far
         proof { lemma_anm_rel_push(*old(state), *m, e0, Event::Pressed(*new_key)); }
+        //@  | frame / auxiliary
         proof { assert(events@.drop_last() =~= e0); lemma_push_set(mo0, *new_key); lemma_push_nodup(mo0, *new_key); lemma_push_contains(mo0, *new_key);
           assert(held(*state) =~= (pt0.to_set().union(mo0.to_set())).insert(*new_key)); assert(apply(h0, events@) == Some(held(*state))); }
       }
@@ -2614,6 +2666,77 @@ proof fn lemma_c08_pre(o: State, pre: State, st: State, k: KeyCode, m: Mapping)
 proof fn lemma_ar_empty() ensures all_released(Seq::<Event>::empty()) {}
 proof fn lemma_ar_append(a: Seq<Event>, b: Seq<Event>) requires all_released(a), all_released(b) ensures all_released(a + b) { lemma_append_contains(a, b); }
 
+// ---- which keys a press step may lift (C05, C04) ----
+spec fn st_le(s1: State, o: State) -> bool {
+  s1.pass_through_keys@ == o.pass_through_keys@ && s1.mapped_output_keys@ == o.mapped_output_keys@ && s1.active_mappings@ == o.active_mappings@ && sub(s1.mapped_absorbed_keys@, o.mapped_absorbed_keys@)
+}
+proof fn lemma_anm_rel_mono(s1: State, o: State, m: Mapping, evs: Seq<Event>)
+  requires
+    //@ C05 C04 | scope of the keys a step lifts
+    anm_rel(s1, m, evs), st_le(s1, o)
+  ensures anm_rel(o, m, evs)
+{
+  reveal(anm_rel);
+  assert forall|x: KeyCode| #[trigger] rel(evs, x) implies anm_scope(o, m, x) by {
+    assert(anm_scope(s1, m, x));
+    if s1.mapped_absorbed_keys@.len() > 0 { assert(s1.mapped_absorbed_keys@.contains(s1.mapped_absorbed_keys@[0])); assert(o.mapped_absorbed_keys@.len() > 0); }
+  }
+}
+/// x may be lifted when a key that fires no mapping and that no mapping in effect mentions goes down (only a non-modifier key lifts anything):
+/// an output key of a key-producing mapping in effect that carries modifiers; while keys are absorbed, a held mapping output or an absorbed key
+spec fn pt_scope(o: State, x: KeyCode) -> bool {
+     (o.mapped_output_keys@.contains(x) && ram_target(o.active_mappings@, x))
+  || (o.mapped_absorbed_keys@.len() > 0 && (o.mapped_output_keys@.contains(x) || o.mapped_absorbed_keys@.contains(x)))
+}
+#[verifier::opaque]
+spec fn np_rel(o: State, evs: Seq<Event>) -> bool { forall|x: KeyCode| #[trigger] rel(evs, x) ==> pt_scope(o, x) }
+proof fn lemma_np_rel_empty(o: State, evs: Seq<Event>)
+  requires
+    //@ C05 | scope of the keys a step lifts
+    evs.len() == 0 ensures np_rel(o, evs) { reveal(np_rel); }
+proof fn lemma_np_rel_ram(o: State, sa: State, st: State, c: Seq<Event>)
+  requires
+    //@ C05 | scope of the keys a step lifts
+    all_released(c), apply(held(sa), c) == Some(held(st)), st_le(sa, o), st.pass_through_keys@ == sa.pass_through_keys@, ram_scope(sa, st)
+  ensures np_rel(o, c)
+{
+  reveal(np_rel); reveal(ram_scope);
+  assert forall|x: KeyCode| #[trigger] rel(c, x) implies pt_scope(o, x) by {
+    lemma_released_gone(held(sa), c, x); lemma_ts(sa.pass_through_keys@, x); lemma_ts(sa.mapped_output_keys@, x); lemma_ts(st.mapped_output_keys@, x);
+    assert(sa.mapped_output_keys@.contains(x)); assert(!st.mapped_output_keys@.contains(x));
+  }
+}
+proof fn lemma_np_rel_rak(o: State, sc: State, st: State, e1: Seq<Event>, c: Seq<Event>)
+  requires
+    //@ C05 | scope of the keys a step lifts
+    np_rel(o, e1), all_released(c), apply(held(sc), c) == Some(held(st)), sc.pass_through_keys@ == o.pass_through_keys@, sub(sc.mapped_output_keys@, o.mapped_output_keys@),
+    sub(sc.mapped_absorbed_keys@, o.mapped_absorbed_keys@), rak_pt(st, sc, sc.mapped_absorbed_keys@), sc.mapped_absorbed_keys@.len() == 0 ==> rak_idle(st, sc, c)
+  ensures np_rel(o, e1 + c)
+{
+  reveal(np_rel); lemma_append_contains(e1, c);
+  assert forall|x: KeyCode| #[trigger] rel(e1 + c, x) implies pt_scope(o, x) by {
+    if rel(e1, x) { } else {
+      assert(rel(c, x));
+      lemma_released_gone(held(sc), c, x); lemma_ts(sc.pass_through_keys@, x); lemma_ts(sc.mapped_output_keys@, x); lemma_ts(st.pass_through_keys@, x);
+      assert(sc.mapped_absorbed_keys@.len() > 0); assert(sc.mapped_absorbed_keys@.contains(sc.mapped_absorbed_keys@[0])); assert(o.mapped_absorbed_keys@.len() > 0);
+      if sc.mapped_output_keys@.contains(x) { assert(o.mapped_output_keys@.contains(x)); } else { assert(o.pass_through_keys@.contains(x)); assert(!st.pass_through_keys@.contains(x)); assert(sc.mapped_absorbed_keys@.contains(x)); }
+    }
+  }
+}
+proof fn lemma_np_rel_press(o: State, e0: Seq<Event>, k: KeyCode)
+  requires
+    //@ C05 | scope of the keys a step lifts
+    np_rel(o, e0)
+  ensures np_rel(o, e0.push(Event::Pressed(k)))
+{
+  reveal(np_rel);
+  assert forall|x: KeyCode| #[trigger] rel(e0.push(Event::Pressed(k)), x) implies pt_scope(o, x) by {
+    let e1 = e0.push(Event::Pressed(k));
+    let j = choose|j: int| 0 <= j < e1.len() && e1[j] == Event::Released(x);
+    if j < e0.len() { assert(e0[j] == Event::Released(x)); assert(rel(e0, x)); }
+  }
+}
+
 //@ C01 C02 C03 C05 C08 C09 C14 C19 | default: fn newly_press
 fn newly_press(mapper: &mut Mapper, k: KeyCode) -> (res: StepResult)
   requires
@@ -2658,6 +2781,9 @@ fn newly_press(mapper: &mut Mapper, k: KeyCode) -> (res: StepResult)
     //@ C08 C04 C05 | the only keys a press step presses are the output keys of the fired mapping, or the pressed key itself when it is passed through
     forall|i: int| #![trigger is_fired(group(old(mapper).layout, k), old(mapper).state, k, i)] is_fired(group(old(mapper).layout, k), old(mapper).state, k, i) ==> only_presses(res.events@, group(old(mapper).layout, k)[i].to@),
     none_fired(group(old(mapper).layout, k), old(mapper).state, k) ==> only_presses(res.events@, seq![k]),
+    //@ C05 C04 | the only keys a press step lifts: see anm_scope (a mapping fires) and pt_scope (the key is passed through)
+    forall|i: int| #![trigger is_fired(group(old(mapper).layout, k), old(mapper).state, k, i)] is_fired(group(old(mapper).layout, k), old(mapper).state, k, i) ==> anm_rel(old(mapper).state, group(old(mapper).layout, k)[i], res.events@),
+    none_fired(group(old(mapper).layout, k), old(mapper).state, k) ==> np_rel(old(mapper).state, res.events@),
     //@ C19 | bookkeeping equals the fold of the emitted events; no redundant press or release
     apply(held(old(mapper).state), res.events@) == Some(held(final(mapper).state)),
     //@ C01 C02 C09 | effect of the call on the list of keys considered pressed
@@ -2752,7 +2878,7 @@ fn newly_press(mapper: &mut Mapper, k: KeyCode) -> (res: StepResult)
         any_hit ==> np_origin(*state, st0, g),
         any_hit ==> ip_kept(*state, st0),
         //@ C08 | absorbed keys after the firing
-        any_hit ==> exists|i: int| #![trigger is_fired(g, st0, k, i)] is_fired(g, st0, k, i) && c08_pre(st0, *state, k, g[i]) && only_presses(res.events@, g[i].to@),
+        any_hit ==> exists|i: int| #![trigger is_fired(g, st0, k, i)] is_fired(g, st0, k, i) && c08_pre(st0, *state, k, g[i]) && only_presses(res.events@, g[i].to@) && anm_rel(st0, g[i], res.events@),
         //@  | frame / auxiliary
         should_absorb ==> absorbed_keys@ == ab1,
         !should_absorb ==> (absorbed_keys@.len() == 0 && at1 == Some(k)),
@@ -2811,7 +2937,8 @@ fn newly_press(mapper: &mut Mapper, k: KeyCode) -> (res: StepResult)
       if is_supported(&mapping.from, &state.input_pressed_keys, &absorbed_keys, &k) {
         let ghost hm0 = held(*state); let ghost e0 = res.events@; let ghost s_pre_anm = *state;
         res.append(add_new_mapping(&mut state, &k, &mapping));
-        proof { let c = choose|c: Seq<Event>| res.events@ == e0 + c && apply(hm0, c) == Some(held(*state)) && c03_fire(*mapping, c, held(*state)) && c07_fire(*mapping, held(*state)) && c08_anm(s_pre_anm, *state, k, *mapping) && only_presses(c, mapping.to@); assert(e0.len() == 0); assert(e0 =~= Seq::<Event>::empty()); assert(e0 + c =~= c);
+        proof { let c = choose|c: Seq<Event>| res.events@ == e0 + c && apply(hm0, c) == Some(held(*state)) && c03_fire(*mapping, c, held(*state)) && c07_fire(*mapping, held(*state)) && c08_anm(s_pre_anm, *state, k, *mapping) && only_presses(c, mapping.to@) && anm_rel(s_pre_anm, *mapping, c); assert(e0.len() == 0); assert(e0 =~= Seq::<Event>::empty()); assert(e0 + c =~= c);
+          assert(st_le(s_pre_anm, st0)); lemma_anm_rel_mono(s_pre_anm, st0, *mapping, c);
           assert forall|f: KeyCode| #[trigger] state.active_mappings@.last().from@.contains(f) implies f == k || state.input_pressed_keys@.contains(f) by {
             let j = choose|j: int| 0 <= j < mapping.from@.len() && mapping.from@[j] == f;
             assert((old(mapper).state.input_pressed_keys@.contains(mapping.from@[j]) && !absorbed_keys@.contains(mapping.from@[j])) || mapping.from@[j] == k);
@@ -2895,10 +3022,12 @@ fn newly_press(mapper: &mut Mapper, k: KeyCode) -> (res: StepResult)
         res.events.append(&mut release_action_mappings(&mut state));
         proof { let c = choose|c: Seq<Event>| res.events@ == e0 + c && apply(hm0, c) == Some(held(*state)) && all_released(c); lemma_apply_append(h0, e0, c);
           assert(e0 =~= Seq::<Event>::empty()); lemma_ar_empty(); lemma_ar_append(e0, c);
+          assert(e0 + c =~= c); assert(st_le(s_a, st0)); lemma_np_rel_ram(st0, s_a, *state, c);
           lemma_frame_ram(s_a, *state); lemma_am_sub_refl(s_a.active_mappings@); lemma_np_origin_shrink(s_a, *state, st0, g); lemma_ip_kept_eq(s_a, *state, st0); }
         let ghost e1 = res.events@; let ghost am_pre = state.active_mappings@; let ghost hm1 = held(*state); let ghost s_c = *state;
         res.events.append(&mut release_absorbed_keys(&mut state));
         proof { let c = choose|c: Seq<Event>| res.events@ == e1 + c && apply(hm1, c) == Some(held(*state)) && all_released(c); lemma_apply_append(h0, e1, c); lemma_ar_append(e1, c);
+          lemma_np_rel_rak(st0, s_c, *state, e1, c);
           lemma_nonempty_sub(state.active_mappings@, am_pre);
           lemma_nm_sub(state.active_mappings@, am_pre, k); lemma_np_origin_shrink(s_c, *state, st0, g); lemma_ip_kept_rak(s_c, *state, st0); lemma_c08_gone_rak(st0, s_c, *state, k); }
       }
@@ -2911,7 +3040,8 @@ fn newly_press(mapper: &mut Mapper, k: KeyCode) -> (res: StepResult)
       res.events.push(Pressed(k));
       state.pass_through_keys.push(k);
       proof { assert(res.events@.drop_last() =~= e2);
-        if is_mod(k) { assert(e2 =~= Seq::<Event>::empty()); lemma_ar_empty(); }
+        if is_mod(k) { assert(e2 =~= Seq::<Event>::empty()); lemma_ar_empty(); lemma_np_rel_empty(st0, e2); }
+        lemma_np_rel_press(st0, e2, k);
         lemma_only_presses_released(e2, seq![k]); assert(seq![k].contains(k)) by { assert(seq![k][0] == k); } lemma_only_presses_push(e2, Event::Pressed(k), seq![k]); lemma_push_set(pt2, k); lemma_push_nodup(pt2, k); lemma_push_contains(pt2, k);
         assert(held(*state) =~= (pt2.to_set().union(state.mapped_output_keys@.to_set())).insert(k));
         lemma_pass_key(s_b, *state, k); lemma_am_sub_refl(s_b.active_mappings@); lemma_np_origin_shrink(s_b, *state, st0, g); lemma_ip_kept_eq(s_b, *state, st0);
@@ -2924,9 +3054,9 @@ fn newly_press(mapper: &mut Mapper, k: KeyCode) -> (res: StepResult)
   state.input_pressed_keys.push(k);
   proof { lemma_push_contains(ip0, k);
     if hit1 { lemma_c08_final_hit(st0, st_pre, *state, k, g);
-      let a = choose|i: int| #![trigger is_fired(g, st0, k, i)] is_fired(g, st0, k, i) && c08_pre(st0, st_pre, k, g[i]) && only_presses(res.events@, g[i].to@);
-      assert forall|i: int| #![trigger is_fired(g, st0, k, i)] is_fired(g, st0, k, i) implies only_presses(res.events@, g[i].to@) by { lemma_fired_unique(g, st0, k, a, i); } }
-    else if any_hit { assert(res.events@ =~= Seq::<Event>::empty()); lemma_ar_empty(); lemma_only_presses_released(res.events@, seq![k]); lemma_c08_final_keep(st0, st_pre, *state, k, true); }
+      let a = choose|i: int| #![trigger is_fired(g, st0, k, i)] is_fired(g, st0, k, i) && c08_pre(st0, st_pre, k, g[i]) && only_presses(res.events@, g[i].to@) && anm_rel(st0, g[i], res.events@);
+      assert forall|i: int| #![trigger is_fired(g, st0, k, i)] is_fired(g, st0, k, i) implies only_presses(res.events@, g[i].to@) && anm_rel(st0, g[i], res.events@) by { lemma_fired_unique(g, st0, k, a, i); } }
+    else if any_hit { assert(res.events@ =~= Seq::<Event>::empty()); lemma_ar_empty(); lemma_only_presses_released(res.events@, seq![k]); lemma_c08_final_keep(st0, st_pre, *state, k, true); lemma_np_rel_empty(st0, res.events@); }
     else if is_mod(k) { lemma_c08_final_keep(st0, st_pre, *state, k, false); }
     else { lemma_c08_final_clear(st0, st_pre, *state, k); }
     lemma_press_ip(st_pre, *state, k); lemma_am_sub_refl(st_pre.active_mappings@); lemma_np_origin_shrink(st_pre, *state, st0, g); lemma_ip_kept_push(st_pre, *state, st0, k);
@@ -2944,6 +3074,32 @@ fn newly_press(mapper: &mut Mapper, k: KeyCode) -> (res: StepResult)
   }
   
   res
+}
+
+/// x is an output key of a key-producing mapping in effect (given as views) that carries modifiers
+pub open spec fn ram_target_v(av: Seq<MappingV>, x: KeyCode) -> bool { exists|j: int| 0 <= j < av.len() && act_map_v((#[trigger] av[j]).to) && av[j].to.len() > 1 && has_mod(av[j].to) && av[j].to.contains(x) }
+proof fn lemma_ram_target_v(am: Seq<Mapping>, x: KeyCode)
+  requires ram_target(am, x)
+  ensures ram_target_v(views(am), x)
+{
+  let j = choose|j: int| 0 <= j < am.len() && act_map(#[trigger] am[j]) && am[j].to@.len() > 1 && has_mod(am[j].to@) && am[j].to@.contains(x);
+  assert(views(am)[j] == mview(am[j]));
+  assert(act_map_v(views(am)[j].to));
+}
+
+// the release-scope facts of the private layer in the vocabulary of views
+proof fn lemma_views_bridge()
+  ensures
+    forall|am: Seq<Mapping>, k: KeyCode, x: KeyCode| #[trigger] owned_by_trigger(am, k, x) ==> exists|j: int| 0 <= j < views(am).len() && (#[trigger] views(am)[j]).from.contains(k) && views(am)[j].to.contains(x),
+    forall|am: Seq<Mapping>, x: KeyCode, j: int| 0 <= j < views(am).len() && #[trigger] views(am)[j].to.contains(x) ==> out_of(am, x),
+    forall|am: Seq<Mapping>, x: KeyCode| #[trigger] ram_target(am, x) ==> ram_target_v(views(am), x),
+{
+  assert forall|am: Seq<Mapping>, k: KeyCode, x: KeyCode| #[trigger] owned_by_trigger(am, k, x) implies exists|j: int| 0 <= j < views(am).len() && (#[trigger] views(am)[j]).from.contains(k) && views(am)[j].to.contains(x) by {
+    let j = choose|j: int| 0 <= j < am.len() && (#[trigger] am[j]).from@.contains(k) && am[j].to@.contains(x);
+    assert(views(am)[j] == mview(am[j]));
+  }
+  assert forall|am: Seq<Mapping>, x: KeyCode, j: int| 0 <= j < views(am).len() && #[trigger] views(am)[j].to.contains(x) implies out_of(am, x) by { assert(views(am)[j] == mview(am[j])); assert(am[j].to@.contains(x)); }
+  assert forall|am: Seq<Mapping>, x: KeyCode| #[trigger] ram_target(am, x) implies ram_target_v(views(am), x) by { lemma_ram_target_v(am, x); }
 }
 
 //@ C01 C02 C06 C07 C09 C14 C19 | default: impl Mapper
@@ -3016,6 +3172,96 @@ impl Mapper {
       Some(mv) => forall|x: KeyCode| #[trigger] evs.contains(Event::Pressed(x)) ==> mv.to.contains(x),
       None => forall|x: KeyCode| #[trigger] evs.contains(Event::Pressed(x)) ==> x == k,
     }
+  }
+  /// the keys that are down on the virtual keyboard because the same physical key is down / because a mapping in effect outputs them
+  pub closed spec fn passed_view(&self) -> Seq<KeyCode> { self.state.pass_through_keys@ }
+  pub closed spec fn mapped_view(&self) -> Seq<KeyCode> { self.state.mapped_output_keys@ }
+  /// C05 / C04: the only keys a (new) press of k may lift
+  pub open spec fn lift_scope(o: Mapper, k: KeyCode, x: KeyCode) -> bool {
+    let absorbing = o.absorbed_view().len() > 0;
+    match o.gfired(k) {
+      Some(mv) =>
+           (act_map_v(mv.to) && o.mapped_view().contains(x) && ram_target_v(o.active_view(), x))
+        || (absorbing && (o.mapped_view().contains(x) || o.absorbed_view().contains(x) || (mv.from.contains(x) && !mv.to.contains(x))))
+        || (o.passed_view().contains(x) && mv.from.contains(x) && !mv.to.contains(x))
+        || (mv.to.contains(x) && !is_mod(x))
+        || (!is_mod(x) && !(mv.repeat is Normal)),
+      None => (o.mapped_view().contains(x) && ram_target_v(o.active_view(), x)) || (absorbing && (o.mapped_view().contains(x) || o.absorbed_view().contains(x))),
+    }
+  }
+  /// C05: the only keys the release of k may lift
+  pub open spec fn drop_scope(o: Mapper, n: Mapper, k: KeyCode, x: KeyCode) -> bool {
+    (x == k || exists|j: int| 0 <= j < o.active_view().len() && (#[trigger] o.active_view()[j]).from.contains(k) && o.active_view()[j].to.contains(x))
+    && !(exists|j: int| 0 <= j < n.active_view().len() && (#[trigger] n.active_view()[j]).to.contains(x))
+  }
+  /// what is down on the virtual keyboard is exactly the passed-through keys and the keys held for mappings
+  pub proof fn lemma_views_held(&self, x: KeyCode)
+    ensures self.held_view().contains(x) <==> (self.passed_view().contains(x) || self.mapped_view().contains(x))
+  { lemma_ts(self.state.pass_through_keys@, x); lemma_ts(self.state.mapped_output_keys@, x); }
+  /// a passed-through key is considered pressed and no mapping in effect mentions it
+  pub proof fn lemma_passed(&self, x: KeyCode)
+    requires self.inv(), self.passed_view().contains(x)
+    ensures self.pressed_view().contains(x), !self.mentions(x)
+  {
+    let st = self.state;
+    if mentioned(st.active_mappings@, x) {
+      let j = choose|j: int| 0 <= j < st.active_mappings@.len() && ((#[trigger] st.active_mappings@[j]).to@.contains(x) || st.active_mappings@[j].from@.contains(x));
+      if st.active_mappings@[j].to@.contains(x) { assert(out_of(st.active_mappings@, x)); }
+    }
+  }
+  /// a key held for a mapping is an output key of a mapping in effect
+  pub proof fn lemma_mapped(&self, x: KeyCode)
+    requires self.inv(), self.mapped_view().contains(x)
+    ensures exists|j: int| 0 <= j < self.active_view().len() && (#[trigger] self.active_view()[j]).to.contains(x)
+  {
+    let st = self.state;
+    assert(out_of(st.active_mappings@, x));
+    let j = choose|j: int| 0 <= j < st.active_mappings@.len() && #[trigger] st.active_mappings@[j].to@.contains(x);
+    assert(self.active_view()[j] == mview(st.active_mappings@[j]));
+  }
+  /// every mapping in effect is (the view of) a mapping of the layout
+  pub proof fn lemma_active_in_layout(&self, l: Layout, j: int)
+    requires self.inv(), self.grouped_from(l), 0 <= j < self.active_view().len()
+    ensures exists|i: int| 0 <= i < l.mappings@.len() && mview(#[trigger] l.mappings@[i]) == self.active_view()[j]
+  {
+    let st = self.state; let h = self.layout; let am = st.active_mappings@[j];
+    assert(self.active_view()[j] == mview(am));
+    assert(in_hl(h, mview(am)));
+    let (k, i2) = choose|k: KeyCode, i2: int| h.mappings@.contains_key(k) && 0 <= i2 < h.mappings@[k]@.len() && mview(#[trigger] h.mappings@[k]@[i2]) == mview(am);
+    assert(views(h.mappings@[k]@) == group_of(l.mappings@, k));
+    assert(views(h.mappings@[k]@)[i2] == mview(h.mappings@[k]@[i2]));
+    lemma_group_of_member(l.mappings@, k, i2);
+  }
+  /// every absorbed key is listed in the absorbing list of a mapping of the layout
+  pub proof fn lemma_absorbed_in_layout(&self, l: Layout, x: KeyCode)
+    requires self.inv(), self.grouped_from(l), self.absorbed_view().contains(x)
+    ensures exists|i: int| 0 <= i < l.mappings@.len() && (#[trigger] l.mappings@[i]).absorbing@.contains(x)
+  {
+    let st = self.state; let h = self.layout;
+    assert(abs_in_hl(h, x));
+    let (kk, i2) = choose|kk: KeyCode, i2: int| h.mappings@.contains_key(kk) && 0 <= i2 < h.mappings@[kk]@.len() && (#[trigger] h.mappings@[kk]@[i2]).absorbing@.contains(x);
+    assert(views(h.mappings@[kk]@) == group_of(l.mappings@, kk));
+    assert(views(h.mappings@[kk]@)[i2] == mview(h.mappings@[kk]@[i2]));
+    lemma_group_of_member(l.mappings@, kk, i2);
+    let i = choose|i: int| 0 <= i < l.mappings@.len() && mview(#[trigger] l.mappings@[i]) == group_of(l.mappings@, kk)[i2] && l.mappings@[i].from@.len() >= 1 && l.mappings@[i].from@.last() == kk;
+    assert(l.mappings@[i].absorbing@ == h.mappings@[kk]@[i2].absorbing@);
+  }
+  /// the trigger keys of a mapping in effect are considered pressed; its trigger and output keys are mentioned
+  pub proof fn lemma_active_facts(&self, j: int, f: KeyCode)
+    requires self.inv(), 0 <= j < self.active_view().len()
+    ensures self.active_view()[j].from.contains(f) ==> self.pressed_view().contains(f) && self.mentions(f), self.active_view()[j].to.contains(f) ==> self.mentions(f)
+  {
+    let st = self.state;
+    assert(self.active_view()[j] == mview(st.active_mappings@[j]));
+    assert(sub(st.active_mappings@[j].from@, st.input_pressed_keys@));
+  }
+  pub proof fn lemma_mentions_witness(&self, x: KeyCode)
+    requires self.mentions(x)
+    ensures exists|j: int| 0 <= j < self.active_view().len() && ((#[trigger] self.active_view()[j]).to.contains(x) || self.active_view()[j].from.contains(x))
+  {
+    let st = self.state;
+    let j = choose|j: int| 0 <= j < st.active_mappings@.len() && ((#[trigger] st.active_mappings@[j]).to@.contains(x) || st.active_mappings@[j].from@.contains(x));
+    assert(self.active_view()[j] == mview(st.active_mappings@[j]));
   }
   pub proof fn lemma_eff(&self, k: KeyCode, x: KeyCode)
     ensures self.eff_absorbed(k).contains(x) <==> (self.absorbing_trigger_view() != Some(k) && self.absorbed_view().contains(x) && x != k)
@@ -3180,6 +3426,9 @@ impl Mapper {
                     Event::Released(k) => final(self).absorbed_view() == old(self).absorbed_view() && final(self).absorbing_trigger_view() == old(self).absorbing_trigger_view() },
       //@ C08 C04 C05 | the only keys a press step presses are output keys of the fired mapping, or the pressed key itself when it is passed through
       match input { Event::Pressed(k) => !old(self).pressed_view().contains(k) ==> Mapper::press_scope(*old(self), k, res.events@), _ => true },
+      //@ C05 C04 | the only keys a step lifts: on a press, see lift_scope; on the release of k, k itself and output keys of mappings in effect that have k in their trigger, and never a key that a mapping remaining in effect outputs
+      match input { Event::Pressed(k) => !old(self).pressed_view().contains(k) ==> forall|x: KeyCode| #[trigger] rel(res.events@, x) ==> Mapper::lift_scope(*old(self), k, x),
+                    Event::Released(k) => forall|x: KeyCode| #[trigger] rel(res.events@, x) ==> Mapper::drop_scope(*old(self), *final(self), k, x) },
     { //@ | body
     broadcast use Mapper::lemma_rest;
     let state = &mut self.state;
@@ -3187,7 +3436,7 @@ impl Mapper {
     match input {
       Pressed(k) => {
         if !state.input_pressed_keys.contains(&k) {
-          proof { let g = group(self.layout, k); lemma_scan(g, self.state, k, g.len() as int); reveal(c03_fire); reveal(c07_fire); reveal(ip_kept); reveal(c08_np); reveal(c08_pre); reveal(only_presses); }
+          proof { let g = group(self.layout, k); lemma_scan(g, self.state, k, g.len() as int); reveal(c03_fire); reveal(c07_fire); reveal(ip_kept); reveal(c08_np); reveal(c08_pre); reveal(only_presses); reveal(anm_rel); reveal(np_rel); lemma_views_bridge(); }
           newly_press(self, k)
         }
         else {
@@ -3199,6 +3448,7 @@ impl Mapper {
       },
       Released(k) => {
         if state.input_pressed_keys.contains(&k) {
+          proof { lemma_views_bridge(); }
           newly_release(self, k)
         }
         else {
